@@ -60,6 +60,8 @@ const (
 	OpUnstake   OpKind = "unstake"
 	OpSend      OpKind = "send"
 	OpParam     OpKind = "change-param"
+	// OpCertResults: a really signed certificate-results transaction of committee 2 (see CertResultsTx); weight 0 by default
+	OpCertResults OpKind = "certificate-results"
 )
 
 // PlannedTx is one generated transaction.
@@ -142,6 +144,8 @@ type World struct {
 	nameOf    map[string]string // any known address -> short name
 	Lazy      map[string]bool   // operator addresses that currently do not sign
 	CommAt    map[uint64][]int  // height -> operator key indexes in the own committee at that height
+	nestedH   uint64            // last certificate height used for committee 2 (CertResultsTx)
+	nestedRH  uint64            // last root height used for committee 2
 	dsUsed    map[string]bool   // "addr/height" already submitted as double signer
 	lastDS    map[string]bool   // entries of the previous certificate
 
@@ -642,6 +646,10 @@ func (w *World) StakingParamChange() ParamChange {
 		}
 		return u(fsm.ParamEarlyWithdrawalPenalty, pick("ewp", 0, 20, 100))
 	case 15:
+		if w.Src.Int("cons?", 0, 1) == 0 {
+			// the chain announces its own retirement: the controller then stamps Results.Retired on the chain's own certificates
+			return ParamChange{Space: fsm.ParamSpaceCons, Key: fsm.ParamRetired, U: pick("retired", 0, 1, 1, 7)}
+		}
 		return ParamChange{Space: fsm.ParamSpaceCons, Key: fsm.ParamProtocolVersion, IsString: true,
 			S: fsm.NewProtocolVersion(w.C.Height()+uint64(w.Src.Int("pvh", 1, 4)), 2)}
 	default: // committee shape (C13): caps around the current population size
@@ -682,7 +690,7 @@ func (w *World) genOne() *PlannedTx {
 	}
 	var cs []cand
 	total := 0
-	for _, k := range []OpKind{OpStake, OpEditStake, OpPause, OpUnpause, OpUnstake, OpSend, OpParam} {
+	for _, k := range []OpKind{OpStake, OpEditStake, OpPause, OpUnpause, OpUnstake, OpSend, OpParam, OpCertResults} {
 		if n := w.Opts.Weights[k]; n > 0 && !(k == OpParam && w.Opts.NoParams) {
 			cs = append(cs, cand{k: k, w: n})
 			total += n
@@ -712,6 +720,8 @@ func (w *World) genOne() *PlannedTx {
 			return w.genSend()
 		case OpParam:
 			return w.ParamTx(w.StakingParamChange())
+		case OpCertResults:
+			return w.CertResultsTx(nil)
 		default:
 			return w.genSimple(c.k)
 		}
@@ -800,6 +810,11 @@ func (w *World) GenBlock() *BlockPlan {
 		d = append(d, "ns=["+strings.Join(nsNames, ",")+"]")
 	}
 	res := &lib.CertificateResult{RewardRecipients: &lib.RewardRecipients{}, SlashRecipients: &lib.SlashRecipients{}}
+	// controller.HandleRetired: the chain's own certificates carry Retired when the consensus parameter 'retired' is set
+	if w.Params.Consensus.Retired != 0 {
+		res.Retired = true
+		d = append(d, "retired")
+	}
 	// double signers
 	thisDS := map[string]bool{}
 	if !w.Opts.NoSlash && w.Src.Int("ds?", 0, 9) < 3 {
@@ -931,3 +946,78 @@ func (w *World) Apply(p *BlockPlan) (*BlockPlan, *Outcome, error) {
 
 // HistoryString renders the history so far.
 func (w *World) HistoryString() string { return strings.Join(w.History, "\n") }
+
+// CertResultsTx builds a really signed certificate-results transaction of committee 2 (aggregate BLS signature of the
+// root chain's committee for chain 2 as of the root height, see SignedCertResultsTx): reward recipients paid out of
+// pool 2, non-signers as long as +2/3 sign, sometimes Retired (which legitimately retires committee 2 for good),
+// sometimes invalid on purpose (corrupt signature, stale height). decorate may add more to the results (orders) and
+// returns a description of what it added. Returns nil when committee 2 is empty.
+func (w *World) CertResultsTx(decorate func(res *lib.CertificateResult) string) *PlannedTx {
+	h := w.C.Height()
+	rootH := h
+	if h > 1 && w.Src.Int("rooth", 0, 2) == 0 {
+		rootH = h - 1
+	}
+	rootH = max(rootH, w.nestedRH)
+	vs, err := w.C.FSM.LoadCommittee(2, rootH)
+	if err != nil || vs.NumValidators == 0 {
+		return nil
+	}
+	res := &lib.CertificateResult{RewardRecipients: &lib.RewardRecipients{}, SlashRecipients: &lib.SlashRecipients{}}
+	left := uint64(100)
+	var rw []string
+	for i, n := 0, w.Src.Int("nrw2", 1, 3); i < n && left > 0; i++ {
+		var a []byte
+		switch w.Src.Int("rw2kind", 0, 2) {
+		case 0:
+			if len(w.ValAddrs) > 0 {
+				a = []byte(w.ValAddrs[w.Src.Int("rwv2", 0, len(w.ValAddrs)-1)])
+			}
+		case 1:
+			a = Addr(OutKey(w.Src.Int("rwo2", 0, w.Opts.OutPool-1)))
+		}
+		if a == nil {
+			a = Addr(AcctKey(w.Src.Int("rwa2", 0, w.Opts.AcctPool-1)))
+		}
+		pc := uint64(w.Src.Int("rwpc2", 1, int(left)))
+		left -= pc
+		// the root chain pays in its own token: only entries for the root chain id are kept (CommitteeData.Combine)
+		res.RewardRecipients.PaymentPercents = append(res.RewardRecipients.PaymentPercents, &lib.PaymentPercents{Address: a, Percent: pc, ChainId: w.Opts.ChainID})
+		rw = append(rw, fmt.Sprintf("%s:%d", w.Name(a), pc))
+	}
+	extra := ""
+	if decorate != nil {
+		extra = decorate(res)
+	}
+	if w.Src.Int("retire2", 0, 11) == 0 {
+		res.Retired = true
+		extra += " RETIRED"
+	}
+	o := CertOpts{Height: w.nestedH + 1, RootHeight: rootH, ProposerIdx: w.Src.Int("prop2", 0, int(vs.NumValidators)-1)}
+	signed := vs.TotalPower
+	var ns []string
+	for i, m := range vs.ValidatorSet.ValidatorSet {
+		if w.Src.Int("ns2", 0, 4) == 0 && signed-m.VotingPower >= vs.MinimumMaj23 {
+			signed -= m.VotingPower
+			o.NonSigners = append(o.NonSigners, i)
+			ns = append(ns, fmt.Sprint(i))
+		}
+	}
+	inv := ""
+	if w.Src.Int("badsig", 0, 14) == 0 {
+		o.CorruptSig, inv = true, "corrupt aggregate signature"
+	}
+	if w.Src.Int("oldheight", 0, 14) == 0 && w.nestedH > 0 {
+		o.Height, inv = w.nestedH, "certificate height not above the last one"
+	}
+	o.Fee = w.Params.Fee.CertificateResultsFee
+	tx, _, e := w.C.SignedCertResultsTx(2, res, o)
+	if e != nil {
+		return nil
+	}
+	if inv == "" {
+		w.nestedH, w.nestedRH = o.Height, rootH
+	}
+	return &PlannedTx{Kind: OpCertResults, Bytes: tx, Hash: crypto.HashString(tx), Invalid: inv,
+		Desc: fmt.Sprintf("cert-results c2 h=%d root=%d rw=[%s] ns=[%s]%s", o.Height, rootH, strings.Join(rw, ","), strings.Join(ns, ","), extra)}
+}
